@@ -94,7 +94,9 @@ func (s *sharedEntryAttributes) toJsonInternal(onlyNewOrUpdated bool, ietf bool)
 			}
 			if onlyNewOrUpdated {
 				le := s.leafVariants.GetHighestPrecedence(false, false)
-				if onlyNewOrUpdated && !(le.IsNew || le.IsUpdated) {
+				// like a leaf, the container also counts when it becomes the value in effect without being new or
+				// updated itself (e.g. the intent that shadowed it lost its precedence): same criterion as the proto view
+				if onlyNewOrUpdated && !(le.IsNew || le.IsUpdated) && s.leafVariants.GetHighestPrecedence(true, false) == nil {
 					return nil, nil
 				}
 			}
